@@ -520,3 +520,90 @@ Example C04_designate_needs_guard :
   file_class_ok cps = false /\ ranges_designate (srv_lexed cps) [120] [rg 0 16 0 17] = true /\
   covers cps (loc_of_range (rg 0 16 0 17)) [120] = false.
 Proof. repeat split; vm_compute; reflexivity. Qed.
+
+(* ================================================================== ranges that come from the ANNOTATION lexer (agent
+   c04-ann): Proofs/ServerRangeText.v.  Names declared in comments (---@class / ---@alias / ---@field, type names inside
+   annotation types) are no tokens of the Lua lexer, so the token judgement above demands nothing of the ranges that
+   designate them (documentSymbol / workspace symbol entries of annotation classes and aliases, definition answers for an
+   annotation type name or for a member resolved to a ---@field).  Leg c04.ranges judges those ranges with the TEXT
+   predicate, extracted from here:
+     text_designates cps name r  :=  covers cps (loc_of_range r) name      (Spec/LspRange.v)
+     texts_designate cps name rs :=  forallb (text_designates cps name) rs
+   expected name: the full name of the class / alias entry, the word under the cursor (word_at) for a cursor that stands on
+   no Lua identifier, the identifier under the cursor otherwise (range_designates_any = token judgement || text judgement). *)
+From LH Require Import Proofs.ServerRangeText.
+
+(* for EVERY document (every list of code points, in particular every valid-UTF-8 file: no lexer, no file class), every
+   name and every list of ranges: what the text judgement accepts lies in the document, has start <= end and the text
+   under it (LSP reading: UTF-16 columns; LF, CRLF, CR) is exactly `name` *)
+Theorem C04_text_designate_sound : forall cps name rs,
+  texts_designate cps name rs = true -> Forall (range_names cps name) rs.
+Proof. exact text_designate_sound. Qed.
+Print Assumptions C04_text_designate_sound.
+
+(* ... and it rejects nothing that is right: the judgement IS clause (ii) of the property *)
+Theorem C04_text_designate_complete : forall cps name rs,
+  Forall (range_names cps name) rs -> texts_designate cps name rs = true.
+Proof. exact text_designate_complete. Qed.
+Print Assumptions C04_text_designate_complete.
+
+(* the combined judgement (identifier token of the model lexer, or text) under the guard of the token judgement *)
+Theorem C04_designate_any_sound : forall gbk cps ts name rs,
+  forallb scalar cps = true -> file_class_ok cps = true ->
+  lex_all gbk (utf8_of cps) = Ok ts -> cls_lexerr ts = false ->
+  ranges_designate_any cps ts name rs = true ->
+  Forall (range_names cps name) rs.
+Proof. exact designate_any_sound. Qed.
+Print Assumptions C04_designate_any_sound.
+
+(* the name the driver asks about for a cursor in a comment: a non-empty slice of the document made of word characters
+   (letters, digits, `_`, `.`: the identifier characters of the annotation lexer) that the cursor stands in or next to *)
+Theorem C04_word_at_slice : forall cps line ch w, word_at cps line ch = Some w ->
+  exists i a b w1 w2, pos_index cps (mkpos line ch) = Some i /\
+    firstn (N.to_nat i) cps = a ++ w1 /\ skipn (N.to_nat i) cps = w2 ++ b /\
+    cps = a ++ w ++ b /\ w = w1 ++ w2 /\ w <> [] /\ forallb is_word_cp w = true.
+Proof. exact word_at_slice. Qed.
+Print Assumptions C04_word_at_slice.
+
+(* non-vacuity: CRLF lines, a comment block whose lines start in columns 0 / 1 (tab) / 4 with CJK text in its first line:
+       local function make() / -- <2 CJK> note / TAB ---@class ns.Vec / ____---@field xpos number / ____local Vec = {} /
+       ____---@type ns.Vec / ____local p = Vec / ____return p.xpos / end
+   the ranges the unchanged server sends: class ns.Vec 2:11-2:17, field xpos 3:14-3:18 are accepted; the ranges the
+   seeded change C04-5 sends (every line of the block read with the start column 0 of its first line: 2:10-2:16,
+   3:10-3:14) are rejected; the word under 5:15 is ns.Vec, under 7:14 (p.xpos) it is `p.xpos` - there the identifier
+   token `xpos` is asked about (ident_at) *)
+Example C04_text_designate_example :
+  let cps := [108;111;99;97;108;32;102;117;110;99;116;105;111;110;32;109;97;107;101;40;41;13;10;45;45;32;20013;25991;32;110;111;116;101;13;10;9;45;45;45;64;99;108;97;115;115;32;110;115;46;86;101;99;13;10;32;32;32;32;45;45;45;64;102;105;101;108;100;32;120;112;111;115;32;110;117;109;98;101;114;13;10;32;32;32;32;108;111;99;97;108;32;86;101;99;32;61;32;123;125;13;10;32;32;32;32;45;45;45;64;116;121;112;101;32;110;115;46;86;101;99;13;10;32;32;32;32;108;111;99;97;108;32;112;32;61;32;86;101;99;13;10;32;32;32;32;114;101;116;117;114;110;32;112;46;120;112;111;115;13;10;101;110;100] in
+  let vec := [110;115;46;86;101;99] in let xpos := [120;112;111;115] in
+  forallb scalar cps = true /\
+  texts_designate cps vec [rg 2 11 2 17] = true /\ texts_designate cps xpos [rg 3 14 3 18] = true /\
+  text_designates cps vec (rg 2 10 2 16) = false /\ text_designates cps xpos (rg 3 10 3 14) = false /\
+  word_at cps 5 15 = Some vec /\ word_at cps 2 14 = Some vec /\ ident_at (srv_lexed cps) 7 14 = Some xpos /\
+  range_designates_any cps (srv_lexed cps) xpos (rg 3 14 3 18) = true /\
+  range_designates (srv_lexed cps) xpos (rg 3 14 3 18) = false /\
+  range_designates_any cps (srv_lexed cps) xpos (rg 7 13 7 17) = true.
+Proof. repeat split; vm_compute; reflexivity. Qed.
+
+(* the exact classes of the deviations of the unchanged server found by the new cases (known_findings/C04.json):
+   ann_bytes - the annotation lexer counts BYTES: ---@alias Mode "<4 CJK>" | Undef1 : the diagnostic for Undef1 is sent as
+   0:32-0:38 on a 30-character line, the name stands at 0:24-0:30 (ann_unbyte maps the one to the other);
+   member_value_type - ---@type table<string, Other> / local p3 = nil / print(p3.cb) : definition on cb answers 0:23-0:28,
+   the value type name Other in the comment (cls_ann_type_word) *)
+Example C04_ann_bytes_example :
+  let cps := [45;45;45;64;97;108;105;97;115;32;77;111;100;101;32;34;20013;25991;20013;25991;34;32;124;32;85;110;100;101;102;49] in
+  let undef := [85;110;100;101;102;49] in
+  range_in_doc cps (rg 0 32 0 38) = false /\ cls_ann_bytes_doc cps (rg 0 32 0 38) = true /\
+  cls_ann_bytes cps undef (rg 0 32 0 38) = true /\ ann_unbyte cps (rg 0 32 0 38) = Some (rg 0 24 0 30) /\
+  text_designates cps undef (rg 0 24 0 30) = true /\ cls_ann_bytes cps undef (rg 0 24 0 30) = false.
+Proof. repeat split; vm_compute; reflexivity. Qed.
+Example C04_member_value_type_example :
+  let cps := [45;45;45;64;116;121;112;101;32;116;97;98;108;101;60;115;116;114;105;110;103;44;32;79;116;104;101;114;62;10;108;111;99;97;108;32;112;51;32;61;32;110;105;108;10;112;114;105;110;116;40;112;51;46;99;98;41;10;45;45;45;64;102;105;101;108;100;32;112;117;98;108;105;99;32;120;112;111;115;32;80;111;105;110;116;124;79;116;104;101;114;32;64;32;120;10;45;45;45;64;99;108;97;115;115;32;65;32;58;32;66] in
+  text_designates cps [99;98] (rg 0 23 0 28) = false /\ cls_ann_type_word cps (rg 0 23 0 28) = true /\
+  cls_ann_type_word cps (rg 0 23 0 27) = false /\ cls_ann_type_word cps (rg 2 9 2 11) = false /\
+  text_designates cps [99;98] (rg 2 9 2 11) = true /\
+  (* ---@field public xpos Point|Other @ x : the tag, the access keyword, the declared name and the note are no type
+     positions; Point and Other are.  ---@class A : B : the parent B is, the declared name A is not *)
+  map (cls_ann_type_word cps) [rg 3 4 3 9; rg 3 10 3 16; rg 3 17 3 21; rg 3 22 3 27; rg 3 28 3 33; rg 3 36 3 37;
+                               rg 4 10 4 11; rg 4 14 4 15] =
+  [false; false; false; true; true; false; false; true].
+Proof. repeat split; vm_compute; reflexivity. Qed.
